@@ -236,6 +236,13 @@ func suiteFrom(a c10Args) otp.Suite {
 			return s
 		}
 		return otp.RawSuite{}
+	case viaEdited, viaPointer:
+		// a constructor's result whose exported configuration the caller then overwrites / a caller-owned object
+		// reconfigured in place: whatever a constructor remembers about having checked the object must not stand in for
+		// checking the configuration it carries now
+		if s, err, pan := makeSuite(a.Via, *a.Suite); err == nil && pan == nil && s != nil {
+			return s
+		}
 	}
 	return toCfg(*a.Suite)
 }
@@ -299,7 +306,7 @@ func genOCRAArgs(rng *gen.RNG, nstr int) c10Args {
 		}
 	}
 	a.Suite = &s
-	a.Via = gen.Pick(rng, []string{viaBare, viaRawValue, viaRaw})
+	a.Via = gen.Pick(rng, []string{viaBare, viaRawValue, viaRaw, viaEdited, viaPointer})
 	in := inputToJ(ref.Input{Counter: hostileBytes(rng), Challenge: hostileBytes(rng), Password: hostileBytes(rng), Session: hostileBytes(rng), Timestamp: hostileBytes(rng)})
 	if oneFault {
 		in = inputToJ(admissibleInput(rng, base, rng.Intn(100)))
